@@ -5,6 +5,8 @@
 From GL Require Import Store.Crash.
 (* the byte-level cases (journal file bytes of a crash image) have their own evaluator; built along *)
 From GL Require Export Corr.C04BytesRun.
+(* the manifest record codec / manifest replay cases have their own evaluator too; built along *)
+From GL Require Export Corr.C04RecRun.
 
 Inductive c04case :=
 | KCrash (ops : list pop) (keep_all : bool) (observed : list N).   (* observed: 0-based issue indexes kept *)
